@@ -94,29 +94,40 @@ HeaderValue(resp, name) ==    \* first value of the (case-insensitively) named h
   LET idx == {i \in DOMAIN resp.hdrs : LowerTxt(resp.hdrs[i].name) = LowerTxt(name)}
   IN IF idx = {} THEN [present |-> FALSE] ELSE [present |-> TRUE, txt |-> resp.hdrs[MinOf(idx)].value]
 
+(* YAML-1.1-style spellings of booleans that lenient readers accept in header text; OpenAPI itself only has true/false *)
+LooseBooleans == {<<121>>, <<121, 101, 115>>, <<110>>, <<110, 111>>, <<111, 110>>, <<111, 102, 102>>, <<116>>, <<102>>, <<49>>, <<48>>}
+HeaderVerdict(defs, txt, s) ==
+  LET v == CoercedD(defs, txt, s, "response")
+  IN IF v = "F" /\ s.sk = "schema" /\ Has(s, "type") /\ s.type = <<"boolean">> /\ LowerTxt(txt) \in LooseBooleans THEN "U" ELSE v
+
 Expected(defn, defs, resp) ==
   LET g == Governing(defn.resps, resp.status)
-      none == [k \in Kinds |-> "F"]
-  IN IF g = 0 THEN [none EXCEPT !["UndefinedStatusCode"] = "T"]
-  ELSE
-  LET r == defn.resps[g]
-      mts == defn.mts                                   \* documented media types (3.0: keys of `content`; 2.0: `produces`)
-      nSchemas == Cardinality({j \in DOMAIN r.schemas : r.schemas[j].has})
+      (* documented media types: 3.0 - keys of `content` of the governing response; 2.0 - `produces` of the OPERATION, *)
+      (* which holds for every response of the operation, documented status or not                                    *)
+      mts == IF g = 0 /\ defn.dialect # "2.0" THEN <<>> ELSE defn.mts
       ct == IF resp.ct.present THEN ParseMT(resp.ct.txt) ELSE [ok |-> FALSE]
       matched == {j \in DOMAIN mts : MTMatch(ParseMT(mts[j]), ct)}
       best == IF matched = {} THEN 0
               ELSE CHOOSE j \in matched : \A k \in matched : Specificity(ParseMT(mts[j])) >= Specificity(ParseMT(mts[k]))
+      anySchema == g # 0 /\ \E j \in DOMAIN defn.resps[g].schemas : defn.resps[g].schemas[j].has
       (* ---- Content-Type *)
-      cMissing == IF mts # <<>> /\ ~resp.ct.present THEN "T" ELSE "F"
+      cMissing == IF resp.ct.present THEN "F" ELSE IF mts # <<>> THEN "T"
+                  ELSE IF anySchema THEN "U" ELSE "F"          \* a body is documented, but no media type: not decided
       cMalformed == IF ~resp.ct.present THEN "F" ELSE IF ct.ok THEN "F" ELSE IF mts # <<>> THEN "T" ELSE "U"
       cUndefined == IF mts = <<>> \/ ~resp.ct.present THEN "F"
                     ELSE IF ~ct.ok THEN "U"             \* reported as malformed; whether also as undocumented is open
                     ELSE IF matched = {} THEN "T" ELSE "F"
+      none == [k \in Kinds |-> "F"]
+  IN IF g = 0 THEN [none EXCEPT !["UndefinedStatusCode"] = "T", !["MissingContentType"] = cMissing,
+                                !["UndefinedContentType"] = cUndefined, !["MalformedMediaType"] = cMalformed]
+  ELSE
+  LET r == defn.resps[g]
+      nSchemas == Cardinality({j \in DOMAIN r.schemas : r.schemas[j].has})
       (* ---- headers of the governing response *)
       hv(i) == HeaderValue(resp, r.headers[i].name)
       hMissing == IF \E i \in DOMAIN r.headers : r.headers[i].required /\ ~hv(i).present THEN "T" ELSE "F"
       hver(i) == IF ~hv(i).present \/ ~r.headers[i].schema.has THEN "T"
-                 ELSE CoercedD(defs, hv(i).txt, r.headers[i].schema.s, "response")
+                 ELSE HeaderVerdict(defs, hv(i).txt, r.headers[i].schema.s)
       hSchema == IF \E i \in DOMAIN r.headers : hver(i) = "F" THEN "T"
                  ELSE IF \E i \in DOMAIN r.headers : hver(i) = "U" THEN "U" ELSE "F"
       (* ---- body: the schema documented for THIS key and THIS media type *)
@@ -299,7 +310,8 @@ ExactBeatsWildcard == Live => LET g == Governing(defn.resps, resp.status) IN
 WildcardBeatsDefault == Live => LET g == Governing(defn.resps, resp.status) IN
                         (g # 0 /\ defn.resps[g].key = KDefault) =>
                            ~\E i \in DOMAIN defn.resps : IsWild(defn.resps[i].key) /\ KeyMatch(defn.resps[i].key, resp.status)
-UndocumentedStatusOnlyThat == (Live /\ exp["UndefinedStatusCode"] = "T") => \A k \in Kinds \ {"UndefinedStatusCode"} : exp[k] = "F"
+UndocumentedStatusOnlyThat == (Live /\ exp["UndefinedStatusCode"] = "T") =>
+                                 \A k \in {"MissingHeaders", "HeaderSchema", "MalformedJson", "JsonSchemaError"} : exp[k] = "F"
 ContentTypeKindsExclusive == Live => Cardinality({k \in {"MissingContentType", "UndefinedContentType", "MalformedMediaType"} : exp[k] = "T"}) <= 1
 ParamsIgnored == ParseMT(MTJson \o TCharset) = ParseMT(MTJson)
 Sanity == /\ TypeOK /\ UndefinedIffNoKey /\ DefaultCoversAll /\ ExactBeatsWildcard /\ WildcardBeatsDefault
